@@ -844,14 +844,17 @@ class Scheduler:
             double_buffer_size = encoded_weights.double_buffer_size()
             if (double_buffer_size <= buffer_limit_bytes) and (weight_buffer_size < len(encoded_weights.buffer)):
                 weight_tensor_purpose = TensorSubPurpose.DoubleBuffer
+                buffer_sizes = list(encoded_weights.double_buffer_sizes)
             else:
                 weight_tensor_purpose = TensorSubPurpose.Standard
+                # A single buffer receives every depth slice, so it must hold the largest one
+                buffer_sizes = [weight_buffer_size]
 
             cost.buffered_weight_tensors = [
                 self.buffer_tensor(
                     encoded_weights,
                     weight_tensor_purpose,
-                    encoded_weights.double_buffer_sizes[0],
+                    buffer_sizes[0],
                     weight_tensor.name + "_buffer",
                 )
             ]
@@ -859,7 +862,7 @@ class Scheduler:
                 buf2 = self.buffer_tensor(
                     encoded_weights,
                     weight_tensor_purpose,
-                    encoded_weights.double_buffer_sizes[1],
+                    buffer_sizes[1],
                     weight_tensor.name + "_buffer2",
                 )
                 cost.buffered_weight_tensors.append(buf2)
@@ -867,7 +870,7 @@ class Scheduler:
             # Note! OFM depth slices define slices as [0, s1, ... sn]. For example, [0, 70, 140] describes two slices
             # (0-70 and 70-140) but has a length of 3, which would result in idx = 3 % 2 = 1 if two buffers were used.
             last_used_buffer_idx = len(cost.ofm_depth_slices) % len(cost.buffered_weight_tensors)
-            weight_buffer_size = encoded_weights.double_buffer_sizes[last_used_buffer_idx]
+            weight_buffer_size = buffer_sizes[last_used_buffer_idx]
 
             if ref_cost.cascade == 0:
                 # Determine if the lifetime can be extended and pre-buffer the first weight buffer
